@@ -423,6 +423,44 @@ func checkC03(c *Ctx) {
 
 	// (d) file trees for Load
 	c03FileTrees(s, r, opts, c.pick(400, 6000))
+	// every short token string as the WHOLE text of a package file, reached by Load (package form, file form) and as an
+	// imported package; Eval with no file system at all (nil) and an import
+	{
+		heads := []string{"*", "&", "-", "!", "^", "(", "[", "func", "type", "var", "import", "package", "return", "x", "1", "\"s\"", "{", "}", ";", ".", ",", ":="}
+		tails := []string{"package", "import", "func", "type", "var", "x", "main", "1", "(", ")", "{", "}", ";", "\"a\"", ""}
+		for _, h := range heads {
+			for _, t := range tails {
+				for _, pre := range []string{"", "package main\n"} {
+					src := pre + h + t
+					if h != "x" && t != "" {
+						src = pre + h + " " + t
+					}
+					s.loadOnce(map[string]string{"main/main.go": src}, "main", nil)
+					s.loadOnce(map[string]string{"main/main.go": src}, "main/main.go", nil)
+					s.observe("Eval", nil, map[string]any{"entry": "Eval", "source": "import \"ext\"", "files": map[string]string{"ext/ext.go": "package ext\n" + h + " " + t}}, func() error {
+						vm := goat.New(goat.WithStdout(&bytes.Buffer{}))
+						_, err := vm.Eval(mapFS(map[string]string{"ext/ext.go": "package ext\n" + h + " " + t}), "fuzz.go", "import \"ext\"")
+						return err
+					})
+				}
+			}
+		}
+		for _, src := range []string{"import \"fmt\"", "import \"nosuch\"", "import (\n\t\"strings\"\n\tx \"a/b\"\n)", "x := 1"} {
+			src := src
+			for _, o := range opts {
+				o := o
+				s.observe("Eval", o, map[string]any{"entry": "Eval", "source": src, "fs": "nil", "opts": o}, func() error {
+					vm := goat.New(goat.WithStdout(&bytes.Buffer{}))
+					_, err := vm.Eval(nil, "fuzz.go", src, runOptions(o)...)
+					return err
+				})
+				s.observe("Load", o, map[string]any{"entry": "Load", "arg": "main", "fs": "nil", "opts": o}, func() error {
+					vm := goat.New(goat.WithStdout(&bytes.Buffer{}))
+					return vm.Load(nil, "main", runOptions(o)...)
+				})
+			}
+		}
+	}
 
 	// (e) Call / Func with wrong names, arities, result counts, non-function values
 	c03CallFunc(s, opts)
